@@ -390,6 +390,35 @@ func (g *tmplGen) genSet() *TmplSet {
 	g.frags = all
 	g.depth, g.n = 0, 0
 	ts.MainTree = g.siblings(2 + g.r.Intn(4))
+	if g.r.Chance(15) {
+		// a recursive fragment (nested menus, trees): it re-inserts itself from inside one branch of its own chain,
+		// with the recursion depth carried by a with-binding; every level is a fresh execution of the fragment
+		q := func(s string) *string { return sp(g.q(s)) }
+		call := &TNode{Kind: "elem", Name: "span", Attrs: []TAttr{{Name: g.ap + "with", Value: q("dep := ${dep - 1}"), Ctl: true},
+			{Name: g.ap + g.r.Pick([]string{"insert", "replace"}), Value: q("rec"), Ctl: true}}}
+		shuffle(g.r, call.Attrs)
+		var body []*TNode
+		if g.r.Bool() {
+			down := &TNode{Kind: "elem", Name: "p", Attrs: []TAttr{{Name: g.ap + "if", Value: q("${dep > 0}"), Ctl: true}},
+				Children: []*TNode{{Kind: "text", Text: "["}, call, {Kind: "text", Text: "]"}}}
+			stop := &TNode{Kind: "elem", Name: "p", Attrs: []TAttr{{Name: g.ap + "else", Ctl: true}}, Children: []*TNode{{Kind: "text", Text: "."}}}
+			body = []*TNode{down, stop}
+		} else {
+			stop := &TNode{Kind: "elem", Name: "p", Attrs: []TAttr{{Name: g.ap + "if", Value: q("${dep <= 0}"), Ctl: true}}, Children: []*TNode{{Kind: "text", Text: "."}}}
+			mid := &TNode{Kind: "elem", Name: "p", Attrs: []TAttr{{Name: g.ap + "elif", Value: q("${dep > 100}"), Ctl: true}}, Children: []*TNode{{Kind: "text", Text: "far"}}}
+			down := &TNode{Kind: "elem", Name: "p", Attrs: []TAttr{{Name: g.ap + "else", Ctl: true}},
+				Children: []*TNode{{Kind: "text", Text: "["}, call, {Kind: "text", Text: "]"}}}
+			body = []*TNode{stop, {Kind: "text", Text: "\n"}, mid, down}
+		}
+		ts.FragTree["rec"] = body
+		site := &TNode{Kind: "elem", Name: "div", Attrs: []TAttr{{Name: g.ap + "with", Value: q("dep := ${" + g.r.Pick([]string{"num", "len(xs)", "2", "0"}) + "}"), Ctl: true},
+			{Name: g.ap + "insert", Value: q("rec"), Ctl: true}}}
+		if g.r.Chance(30) {
+			site.Attrs = []TAttr{{Name: g.ap + "range", Value: q("_, dep : ns"), Ctl: true}, {Name: g.ap + "replace", Value: q("rec"), Ctl: true}}
+		}
+		shuffle(g.r, site.Attrs)
+		ts.MainTree = append(ts.MainTree, site)
+	}
 	return ts
 }
 
@@ -403,9 +432,36 @@ func (g *tmplGen) layout(ts *TmplSet) {
 		names = append(names, f)
 	}
 	sortStrings(names)
+	// placement of every definition: in main (before / after use), in another file, or NESTED in the body of an
+	// earlier-named definition (a definition is registered wherever it is written and never rendered in place)
+	place := map[string]int{}
+	nestedIn := map[string][]string{}
+	for i, f := range names {
+		p := g.r.Intn(5)
+		if p == 4 {
+			if i == 0 {
+				p = g.r.Intn(4)
+			} else {
+				host := names[g.r.Intn(i)]
+				nestedIn[host] = append(nestedIn[host], f)
+			}
+		}
+		place[f] = p
+	}
+	var defOf func(f string) string
+	defOf = func(f string) string {
+		inner := ""
+		for _, c := range nestedIn[f] {
+			inner += defOf(c)
+		}
+		return "<template " + g.ap + "define=" + g.q(f) + ">" + g.r.Pick([]string{"", "\n", "\n  "}) + printNodes(ts.FragTree[f]) + inner + g.r.Pick([]string{"", "\n", " "}) + "</template>"
+	}
 	for _, f := range names {
-		def := "<template " + g.ap + "define=" + g.q(f) + ">" + g.r.Pick([]string{"", "\n", "\n  "}) + printNodes(ts.FragTree[f]) + g.r.Pick([]string{"", "\n", " "}) + "</template>"
-		switch g.r.Intn(4) {
+		if place[f] == 4 {
+			continue
+		}
+		def := defOf(f)
+		switch place[f] {
 		case 0:
 			mainSrc = def + mainSrc
 		case 1:
